@@ -11,6 +11,48 @@ ENGINES = [
 ]
 
 CHECKS = {
+    "C07": {
+        "text": "Static analysis: the coefficient store is written only through the compacting constructor/__setitem__/"
+                "zero setter (no zero coefficient can be stored); term-wise identities of *, +, -, unary, ** and / in "
+                "normal form; diff/integrate maps compose to the identity and diff is linear; Horner recurrence on both "
+                "branches and direct/compositional evaluation; eq/ne/hash coherence; Lagrange basis term. Ring laws on "
+                "concrete values follow from these term-wise identities and are not re-proved.",
+        "note": NOTE,
+        "technique": "who-may-write check on the store + rational-normal-form comparison of term maps",
+    },
+    "C10": {
+        "text": "Static analysis: symbolic index-range analysis shows every subscript of acorr/lag_matrix/toeplitz stays "
+                "exactly within [0, len-1] (no silent negative wrap, no dropped term), the factor indices differ by the "
+                "lag; Levinson-Durbin and covariance Gram-Schmidt statements compared in normal form with the inner "
+                "product opaque; .error assigned before every return; one order for both stages of kautocor. Does not "
+                "prove that the recursions solve the normal equations.",
+        "note": NOTE,
+        "technique": "symbolic interval analysis of subscripts + normal-form statement comparison",
+    },
+    "C11": {
+        "text": "Static analysis: homogeneity-degree analysis shows the polynomial handed to the step-down recursion by "
+                "parcor_stable has degree 0 in the filter gain; strict '< 1' against every coefficient, ParCorError -> "
+                "False; ParCorError raised only from a caught division by zero; step-down statements in normal form. "
+                "The Schur-Cohn equivalence with pole positions is trusted mathematics, not decided.",
+        "note": NOTE,
+        "technique": "homogeneity-degree abstract interpretation + normal-form statement comparison",
+    },
+    "C12": {
+        "text": "Static analysis: evaluation point exp(-1j*freq) for both polynomials, nan guard before the division, "
+                "dft kernel x_n*exp(-1j*n*f) with the same sign convention, normalisation only under the flag, broadcast "
+                "position of freq, cascade = product / parallel = sum. Numeric agreement with filtering is not decided.",
+        "note": NOTE,
+        "technique": "normal-form comparison of the exponent and of the reduction shapes",
+    },
+    "C13": {
+        "text": "Static analysis: tee budgets of all design strategies with Stream parameters (use counting per path); "
+                "DC/Nyquist gain identically 1, half-power identity at the cut-off for the pole/z strategies (modulo "
+                "sqrt^2 and sin^2+cos^2 relations), pole sign and documented R, resonator denominators with "
+                "R = exp(-bandwidth/2) and zeros at +-1, comb forms, gammatone normalisation - all as identities in the "
+                "design parameters. Monotonicity and numeric pole radius are not decided.",
+        "note": NOTE,
+        "technique": "rational normal forms with algebraic relations + linear-use accounting",
+    },
     "C01": {
         "text": "Static analysis: operand provenance of every operator application in the four metaclass template "
                 "families; the operator table folded and compared entry by entry with the Python data model (independent "
